@@ -6,3 +6,4 @@ import TV.Properties.C19
 #print axioms TV.C19.C19_break_skips_waiting
 #print axioms TV.C19.C19_shutdown_no_deadlock
 #print axioms TV.C19.C19_model_passes_monitor
+#print axioms TV.C19.C19_break_after_stop_skips_rest
